@@ -734,7 +734,8 @@ def vl_findings(inp):
     cfg = inp['cfg']
     kw = {k: inp[k] for k in ('seed', 'method', 'max_iter', 'max_iter_rules', 'max_norm') if k in inp}
     try:
-        out = make_vl(cfg, **kw)(score)
+        vl_obj = make_vl(cfg, **kw)
+        out = vl_obj(score)
     except Exception as e:
         if not vl_domain(score, cfg):
             return {}       # outside the optimiser's input domain: rejected, not re-voiced
@@ -767,9 +768,15 @@ def vl_findings(inp):
                     res.setdefault(cls, []).append(f'fixed voice {f} chord {j}: pitch {pa} -> {pb}, expected {want} '
                                                    f'[type={a.type} change_octave_fixed={bool(change)}]')
     if not res:
+        # reproducible for a given seed: a fresh optimiser with the same seed, AND the same optimiser object used a
+        # second time (seed C19-1: the RNG was no longer re-seeded per run, only visible when an instance is re-used)
         again = make_vl(cfg, **kw)(score)
         if str(again) != str(out):
-            res['repro'] = ['not reproducible for the same seed']
+            res['repro'] = ['not reproducible for the same seed (fresh optimiser)']
+        else:
+            reused = vl_obj(score)
+            if str(reused) != str(out):
+                res['repro'] = ['not reproducible for the same seed (same optimiser object called twice)']
     return res
 
 
